@@ -8,7 +8,8 @@ from typing import List
 from ..core import rule
 from ..dataflow import DefUse
 from ..prov import Analysis, BOT, Domain, flat, join
-from ..program import AnalysisError, dotted, src, walk_local
+from ..program import AnalysisError, dotted, src
+from ..core import walk_local  # inline-aware
 from .common import where
 from .c11 import prune_walk
 
